@@ -59,6 +59,8 @@ type Cfg struct {
 	Hs       string   `json:"hs"`
 	Caps2    []string `json:"caps2"`
 	Logger   string   `json:"logger"` // capture (default), std, json
+	Fallback bool     `json:"fallback"`
+	Big      bool     `json:"-"` // attachments larger than every buffer on the way (content stalls)
 }
 
 // Credentials of the one account the reference server knows.
@@ -275,7 +277,11 @@ func BuildMsg(m int, cfg Cfg, failing bool) (*mail.Msg, error) {
 	} else if rf == "failAttEOF" {
 		msg.AttachReadSeeker("data.bin", &failSeeker{err: io.ErrUnexpectedEOF, data: attachment(m)[:100]})
 	} else {
-		msg.AttachReadSeeker("data.bin", bytes.NewReader(attachment(m)))
+		att := attachment(m)
+		if cfg.Big {
+			att = bytes.Repeat(att, 40)
+		}
+		msg.AttachReadSeeker("data.bin", bytes.NewReader(att))
 	}
 	return msg, nil
 }
@@ -468,8 +474,11 @@ func (rn *Runner) Run() {
 	faults := map[refsmtp.Key]refsmtp.Fault{}
 	for i, e := range sc.Env {
 		faults[refsmtp.Key{V: e.V, M: e.M, R: e.R}] = refsmtp.Fault{K: i + 1, Class: e.C, Shape: e.Sh, Rot: cfg.Cs}
-		if e.C == "stall" {
+		if e.C == "stall" || e.C == "cstall" {
 			rn.stall = true
+		}
+		if e.C == "cstall" {
+			cfg.Big = true
 		}
 	}
 	addr := map[string][2]int{}
@@ -530,7 +539,19 @@ func (rn *Runner) Run() {
 	}
 	rn.srv = refsmtp.New(scfg, r)
 
+	refusePrimary := false
+	for _, e := range sc.Env {
+		if e.V == "DIAL" && e.C == "refuse" {
+			refusePrimary = true
+		}
+	}
+	dials := 0
 	dial := func(ctx context.Context, network, address string) (net.Conn, error) {
+		dials++
+		r.Emit("dial", "addr", address, "n", dials)
+		if refusePrimary && dials == 1 {
+			return nil, fmt.Errorf("dial tcp %s: connect: connection refused (scripted)", address)
+		}
 		cl, sv := pipeconn.Pipe()
 		rn.srv.Go(sv)
 		t := refsmtp.NewTrackConn(cl, r)
@@ -549,8 +570,12 @@ func (rn *Runner) Run() {
 		policy = mail.TLSOpportunistic
 	}
 	opts := []mail.Option{
-		mail.WithDialContextFunc(dial), mail.WithTLSPolicy(policy), mail.WithTimeout(timeout),
-		mail.WithHELO("client.test"),
+		mail.WithDialContextFunc(dial), mail.WithTimeout(timeout), mail.WithHELO("client.test"),
+	}
+	if cfg.Fallback {
+		opts = append(opts, mail.WithTLSPortPolicy(policy)) // 587 with fallback to 25 when opportunistic
+	} else {
+		opts = append(opts, mail.WithTLSPolicy(policy))
 	}
 	if at, ok := authTypes[cfg.Authtype]; ok {
 		opts = append(opts, mail.WithSMTPAuth(at), mail.WithUsername(User), mail.WithPassword(Pass))
@@ -571,8 +596,14 @@ func (rn *Runner) Run() {
 		opts = append(opts, mail.WithLogAuthData())
 	}
 	host := "mail.example.test"
-	if cfg.Hostkind == "localhost" {
+	switch cfg.Hostkind {
+	case "localhost":
 		host = "localhost"
+	case "loopback":
+		host = []string{"127.0.0.1", "::1"}[rn.T%2]
+	case "lookalike": // names that merely look like a localhost server
+		host = []string{"127.mail.example.test", "localhost.example.test", "127.0.0.1.relay.example.test",
+			"localhost6.example.test"}[rn.T%4]
 	}
 	if cfg.Nonoop {
 		opts = append(opts, mail.WithoutNoop())
